@@ -7,9 +7,10 @@ semantics of the Aldor subset, used as the oracle by C01, C02, C03, C06, C09, C1
     r = mini.run_interp(aldor, src, dir)  # (status_class, stdout, stderr, rc) via -ginterp
     r = mini.run_c(aldor, src, dir)       # same through the C back end + gcc + pre-built runtime
 """
-import concurrent.futures, json, os, subprocess
+import concurrent.futures, json, os, re, subprocess
 from vlib import common as C
 
+BACKTRACE = re.compile(r"#0 (?:0x)?[0-9a-f]+ in <[^>\n]*> at unit \[")
 MINI_VO = ["Mini/Extract.vo"]
 _exe = None
 
@@ -79,6 +80,10 @@ def run_interp(aldor, src, d, name="p", extra=(), timeout=60):
     _write(d, name, src)
     rc, out, err = C.run(C.aldor_base_args(aldor) + list(extra) + ["-ginterp", name + ".as"],
                          cwd=d, env=C.aldor_env(), timeout=timeout)
+    if rc != 0:
+        # the interpreter appends its own call-stack dump to stdout when a program ends by an
+        # unhandled exception ("#0 0x.. in <error> at unit [sal_string]" ...): not program output
+        out = BACKTRACE.split(out)[0]
     return {"route": "interp", "rc": rc, "status": status_class(rc), "out": out, "err": err}
 
 
@@ -118,14 +123,18 @@ def shrink(seed, size, still_fails, max_steps=200, log=None, budget_s=600):
     t0 = time.time()
     path = []
     cur = shrink_query(seed, size, [[]])[0]
+    start = 0
     for step in range(max_steps):
         n = cur.get("ncands", 0)
         found = None
         CH = 4 * C.NCPU
+        # candidates are scanned from the position of the last success (the list of the new
+        # program is the old one minus the reduced part), wrapping around
+        order = list(range(min(start, n), n)) + list(range(0, min(start, n)))
         for lo in range(0, n, CH):
             if time.time() - t0 > budget_s:
                 break
-            idx = list(range(lo, min(n, lo + CH)))
+            idx = order[lo:lo + CH]
             qs = shrink_query(seed, size, [path + [j] for j in idx])
             ok = [(j, q) for j, q in zip(idx, qs)
                   if q.get("typed") is True and q.get("result") == "done"]
@@ -142,7 +151,38 @@ def shrink(seed, size, still_fails, max_steps=200, log=None, budget_s=600):
         if not found:
             break
         path.append(found[0])
+        start = found[0]
         cur = found[1]
         if log:
             log("shrink step %d: nodes=%s path=%s" % (step, cur.get("nodes"), path))
     return path, cur
+
+
+# ------------------------------------------------------------------ mutants (C06) and forms (C13)
+
+def mutants(seeds, size, max_per_kind=5):
+    """For each seed: dict with the well-typed base program (fields as gen()), `sites`
+    ({kind: {candidates, eligible}}) and `mutants`: list of dicts kind, site, src (whole
+    ill-typed program), fault_form (index of the top-level form holding the fault),
+    line_lo/line_hi (its 1-based line range in src), bad_form (its text alone).
+    Kinds: wrong-argument-type, wrong-arity, undefined-name, ambiguous-overload,
+    assign-to-constant, wrong-return-type.  Every mutant is ill-typed by the model's rules
+    (Coq: mutant_ill_typed)."""
+    return batch(["mutants %d %d %d" % (s, size, max_per_kind) for s in seeds])
+
+
+def forms(seeds, size):
+    """For each seed: dict with `header` (the #include/import lines), `forms`: list of
+    {src, expect_out} (top-level forms in file order with the text each prints), plus the
+    fields of gen() for the whole program (src == header + concatenation of the forms)."""
+    return batch(["forms %d %d" % (s, size) for s in seeds])
+
+
+def compile_only(aldor, src, d, name="p", extra=("-fao",), timeout=60):
+    """Run the compiler without executing (for accept / reject decisions).  Returns rc, out,
+    err and the list of output files left behind."""
+    _write(d, name, src)
+    rc, out, err = C.run(C.aldor_base_args(aldor) + list(extra) + [name + ".as"],
+                         cwd=d, env=C.aldor_env(), timeout=timeout)
+    left = sorted(f for f in os.listdir(d) if f.startswith(name + ".") and not f.endswith(".as"))
+    return {"rc": rc, "out": out, "err": err, "files": left}
